@@ -504,16 +504,16 @@ class C19(core.Check):
         if child < 0:
             msgs.append(f"{name}: child handed a negative dimension {child}")
         fits = [w for w in want if fixed_lo + w + fixed_hi <= total]
-        if fits:
-            if child not in want:
-                msgs.append(f"{name}: child gets {child}, requested {sorted(want)} fits beside the margins in {total}")
-            else:
-                if lo < fixed_lo or hi < fixed_hi:
-                    msgs.append(f"{name}: fixed margins not kept ({lo},{hi}) < ({fixed_lo},{fixed_hi})")
-                spare = total - child - fixed_lo - fixed_hi
-                if abs(Fraction(lo - fixed_lo) - Fraction(align * spare, 100)) > 1:
-                    msgs.append(f"{name}: spare space {spare} not split by alignment {align}% (margin {lo})")
+        if child in want and fixed_lo + child + fixed_hi <= total:
+            if lo < fixed_lo or hi < fixed_hi:
+                msgs.append(f"{name}: fixed margins not kept ({lo},{hi}) < ({fixed_lo},{fixed_hi})")
+            spare = total - child - fixed_lo - fixed_hi
+            if abs(Fraction(lo - fixed_lo) - Fraction(align * spare, 100)) > 1:
+                msgs.append(f"{name}: spare space {spare} not split by alignment {align}% (margin {lo})")
+        elif len(fits) == len(want):
+            msgs.append(f"{name}: child gets {child}, requested {sorted(want)} fits beside the margins in {total}")
         else:
+            # the requested size does not fit (or only one of its two roundings does): the child gets what remains
             w = min(want)
             beside = max(total - fixed_lo - fixed_hi, 0)
             if child > max(want) or child < min(w, beside) or child > total:
@@ -649,7 +649,10 @@ class C19(core.Check):
         if total > maxcol:
             msgs.append(f"cols: visible columns plus dividers need {total} > {maxcol}")
         wvis = [i for i, (k, a) in enumerate(opts) if k == "weight" and full[i] > 0]
-        if wvis and total != maxcol and minw >= 1:
+        # a zero-width slot (min_width = 0, or a packed child reporting width 0) still takes a divider while
+        # hidden; whether that counts as "not filled" is not settled by the statement: observation only
+        zero_slots = minw == 0 or any(k in ("pack", "packflow") and own[i] == 0 for i, (k, a) in enumerate(opts))
+        if wvis and total != maxcol and not zero_slots:
             msgs.append(f"cols: a weighted column is shown but {total} of {maxcol} columns are used")
         if own[f] <= maxcol and own[f] >= 1 and full[f] == 0:
             msgs.append(f"cols: focus column {f} (own size {own[f]}) hidden although it fits in {maxcol}")
@@ -752,10 +755,10 @@ class C19(core.Check):
                 inc(dist, "cols:left-columns-dropped-or-zero")
             nw = sum(1 for i, (kk, a) in enumerate(c["opts"]) if kk == "weight" and i < len(ws) and ws[i] > 0)
             inc(dist, "cols:weighted-shown=%d" % min(nw, 5))
-            if self.cols_in_statement(c) and c["minw"] == 0 and nw:
+            if self.cols_in_statement(c) and nw:
                 vis = [w for w in ws if w > 0]
                 if sum(vis) + c["div"] * max(0, len(vis) - 1) != c["maxcol"]:
-                    inc(dist, "obs:min_width=0 weighted shown but not filled exactly")
+                    inc(dist, "obs:zero-width slot (min_width=0 or empty packed child): weighted shown but not filled exactly")
             if self.cols_in_statement(c) and c["minw"] == 0 and c["opts"][c["focus"]][0] == "weight" \
                     and (c["focus"] >= len(ws) or ws[c["focus"]] == 0):
                 inc(dist, "obs:min_width=0 weighted focus column has zero width")
